@@ -48,7 +48,7 @@ CHECKS.update({
             'the real reader; crash points are enumerated completely per '
             'file, files are sampled.',
             'intact records from the spec serializer layout; known findings '
-            'F8a/F8b (short read accepted) are reported, not alarmed',
+            'F8a/F8b/F8c (short read accepted) are reported, not alarmed',
             '4/C07'),
     'C08': ('fault_enumeration',
             'fault enumeration: corruption catalogue + sys.monitoring '
